@@ -233,7 +233,11 @@ func zzvSigBase(msg string) string {
 				}
 			}
 		}
-		return "use-after-unmap:" + acc + ":closed-by:" + closer
+		when := "in-flight"
+		if strings.Contains(msg, "began after the mapping was closed") {
+			when = "call-began-after-close"
+		}
+		return "use-after-unmap:" + acc + ":closed-by:" + closer + ":" + when
 	case strings.HasPrefix(msg, "panic"):
 		if i := strings.LastIndex(msg, "@ "); i >= 0 {
 			return "panic@" + msg[i+2:]
